@@ -824,7 +824,16 @@ def locked_census(chk, F, rule, config, allow, floor):
     allow: list of (receiver-field regex, callee regex list)"""
     locked = F.fn('private::MutexIsh::locked')
     # the lock wrapper itself: lock, unwrap (poison), deref_mut, call_once
+    lock_calls = []
     for bb, t in locked.calls():
+        d_ = symex.callee_def(t)
+        hf_ = F.fns.get(d_)
+        if hf_ is not None and symex.is_new_helper(hf_):
+            # the per-backend lock primitive extracted into a helper of its own: what it calls is what `locked` calls
+            lock_calls += list(hf_.calls())
+        else:
+            lock_calls.append((bb, t))
+    for bb, t in lock_calls:
         n = symex.callee_name(t)
         ok = bool(re.search(r'(Mutex::lock$|Result::unwrap$|DerefMut>?::deref_mut$|Deref>?::deref$|FnOnce::call_once$|RefCell::borrow_mut$)', n))
         chk.ob(rule, 'MutexIsh::locked only locks and runs the closure', ok, config=config, fn=locked, site='call:%s' % n,
